@@ -797,7 +797,16 @@ func (p *Parser) doHeredocs() {
 			r.Hdoc = p.getWord()
 		}
 		if stop := p.hdocStops[len(p.hdocStops)-1]; stop != nil {
-			p.posErr(r.Pos(), "unclosed here-document %#q", stop)
+			// A heredoc is only left unclosed by running out of input,
+			// so more input could always complete it. Do not go through
+			// posErr, as a quoted heredoc body is not read via p.next,
+			// and no node is open any more at the very end of the input.
+			p.errPass(ParseError{
+				Filename:   p.f.Name,
+				Pos:        r.Pos(),
+				Text:       fmt.Sprintf("unclosed here-document %#q", stop),
+				Incomplete: p.r == runeEOF,
+			})
 		}
 		p.hdocStops = p.hdocStops[:len(p.hdocStops)-1]
 	}
